@@ -109,6 +109,31 @@ def timeline_check(ctx, inp, frames, sock, key):
                     size=len(frames) * 10 + sum(len(f.data) for f in frames))
 
 
+def run_after_own_close(ctx):
+    """the client has sent ITS close frame (send_close) and keeps receiving until the server's close arrives: a ping read in
+    that window is answered like any other (RFC 6455 5.5.2: unless a close frame was already RECEIVED).  Sessions against the
+    model + the bytes written."""
+    key = b"\x11\x22\x33\x44"
+    sessions, meta = [], []
+    for frames in ([F(9, b"a"), F(1, b"t"), F(9, b"bb"), F(8, b"\x03\xe8")],
+                   [F(2, b"x", fin=0), F(9, b""), F(0, b"y"), F(9, b"late"), F(8, b"")],
+                   [F(9, b"p" * 125), F(8, b"\x03\xe9bye")]):
+        for api in ("recv", "recvdata:0", "recvdata:1", "rdf:1"):
+            stream = b"".join(f.enc() for f in frames)
+            sessions.append(({"keys": [key] * 8, "tail": "eof"}, [("chunk", stream)], ["sclose:1000:-"] + [api] * (len(frames) + 1)))
+            meta.append((frames, api))
+    for (frames, api), (impl, model, ws, sock, line) in zip(meta, rx.run_sessions(ctx, "session:ping-after-own-close", sessions)):
+        ctx.case(key=line, nontrivial=True, cls=f"after-own-close:api={api}")
+        wire = bytes(sock.sent)
+        def mk(op, p):
+            return bytes([0x80 | op, 0x80 | len(p)]) + key + bytes(b ^ key[i % 4] for i, b in enumerate(p))
+        want = mk(8, b"\x03\xe8") + b"".join(mk(10, f.data) for f in frames if f.op == 9)
+        if wire != want:
+            ctx.violate("each-ping-answered", "ping-after-own-close-frame-not-answered",
+                        {"op": line[:300], "frames": [f.desc() for f in frames], "api": api},
+                        "own close frame, then one pong per ping: " + want.hex(), wire.hex(), size=len(frames) + 1)
+
+
 def run_same_object_again(ctx):
     """the SECOND (third) connection of one WebSocket object: the first ended by end of stream seen in a receive call (after
     something had been written on it), by close(), or by shutdown(); then `connect()` again on the same object — the pings
@@ -234,6 +259,7 @@ def run(ctx):
                 inp = {"op": "recv x2 with EAGAIN on the pong's write", "frames": [f.desc() for f in frames], "eagain_at_send_calls": eagain,
                        "accepts": acc}
                 timeline_check(ctx, inp, frames, sock, key)
+    run_after_own_close(ctx)
     run_same_object_again(ctx)
 
 
